@@ -2,6 +2,7 @@ import Model.RdataText
 import Proofs.RdataTextNum
 import Proofs.RdataTextEsc
 import Proofs.RdataTextRec
+import Proofs.RdataTextEnc
 /-!
 # C05 — every record type's master-file text parses back to an equal record
 
@@ -189,12 +190,76 @@ def provedTypes : List String :=
    "TLSA", "SMIMEA", "SSHFP", "ZONEMD", "DNSKEY", "CDNSKEY", "DHCID", "OPENPGPKEY", "BRID", "HHIT", "L32", "NSEC3PARAM",
    "CH-A", "EUI48", "EUI64", "NID", "L64", "NSAP",
    "CERT", "DSYNC", "KEY", "RRSIG", "SIG", "NSEC", "CSYNC", "NSEC3",
-   "HIP", "TKEY", "TSIG"]
+   "HIP", "TKEY", "TSIG", "IPSECKEY", "AMTRELAY", "APL", "WKS"]
 
 /-- every type in `provedTypes` has a schema made of proved field kinds only (complete finite table, by `decide`) -/
 theorem provedTypes_covered :
     ∀ t ∈ provedTypes, ∃ sch, schemaOf t = some sch ∧ sch.fields.all kindProved = true := by
   decide
+
+/-- the record types for which "accepted from text ⇒ encodable to wire" is proved: every schema type whose wire form
+the model has (all but HIP, TKEY, TSIG, IPSECKEY, AMTRELAY, APL, WKS, whose `to_wire` is checked by the oracle only) -/
+def encodableTypes : List String :=
+  ["A", "AAAA", "NS", "CNAME", "PTR", "DNAME", "NSAP-PTR", "MX", "AFSDB", "RT", "KX", "LP", "PX", "SRV", "RP", "SOA",
+   "TXT", "SPF", "AVC", "NINFO", "RESINFO", "WALLET", "HINFO", "X25", "ISDN", "NAPTR", "CAA", "URI", "DS", "DLV", "CDS",
+   "TLSA", "SMIMEA", "SSHFP", "ZONEMD", "DNSKEY", "CDNSKEY", "DHCID", "OPENPGPKEY", "BRID", "HHIT", "L32", "NSEC3PARAM",
+   "CH-A", "EUI48", "EUI64", "NID", "L64", "NSAP",
+   "CERT", "DSYNC", "KEY", "RRSIG", "SIG", "NSEC", "CSYNC", "NSEC3"]
+
+theorem encodableTypes_schemas :
+    ∀ t ∈ encodableTypes, ∃ sch, schemaOf t = some sch ∧ schemaEncodable t sch = true := by
+  decide
+
+/-- "a record accepted from text can always be encoded to wire": whatever `dns.rdata.from_text` returns for a type of
+`encodableTypes` — from *any* text, any origin / relativize / relativize_to — is within what `to_wire` can pack:
+integers fit their `struct` formats, character-strings, salts and hashes are at most 255 octets, addresses have 4 / 16
+octets, bitmap windows are below 256 with at most 32 octets, and names can be written against any absolute origin `O`
+(a relative name needs one: `to_wire()` without origin raises `NeedAbsoluteNameOrOrigin` by design).  For the RFC 3597
+generic syntax the value was re-encoded by `from_text` itself against `wireOrigin env`, so it is encodable against that.
+`encRec` is tied to `Rdata.to_wire` by the correspondence op `c05.wire.enc`; composing with the C02 codec theorems was
+not possible (C02 models the message-level codec over its own field kinds), so `encRec`'s packing guards are stated in
+this model. -/
+theorem text_accepts_encodable (tn : String) (htn : tn ∈ encodableTypes) (env : PEnv) (text : Text)
+    (vals : List FV) (tail : Option FV) (h : fromTextRdata (some tn) env text = some (.known vals tail)) :
+    ∃ sch toks, schemaOf tn = some sch ∧ lexLine text = some toks ∧
+      (isGenericStart toks = false → ∀ O, isAbs O = true → (encRec tn sch (some O) vals tail).isSome = true) ∧
+      (isGenericStart toks = true → (encRec tn sch (wireOrigin env) vals tail).isSome = true) := by
+  obtain ⟨sch, hsch, henc⟩ := encodableTypes_schemas tn htn
+  unfold fromTextRdata at h
+  cases hl : lexLine text with
+  | none => simp [hl] at h
+  | some toks =>
+    simp only [hl, hsch] at h
+    refine ⟨sch, toks, hsch, rfl, ?_, ?_⟩
+    · intro hg O hO
+      simp only [hg, Bool.false_eq_true, if_false] at h
+      cases hp : parseRec sch env toks with
+      | none => simp [hp] at h
+      | some p =>
+        obtain ⟨v, t⟩ := p
+        simp only [hp, Option.map_some, Option.some.injEq, Parsed.known.injEq] at h
+        obtain ⟨rfl, rfl⟩ := h
+        exact record_encodable tn sch env O hO henc toks _ _ hp
+    · intro hg
+      simp only [hg, if_true] at h
+      split at h
+      · cases h
+      · split at h
+        · cases h
+        · split at h
+          · cases h
+          · rename_i v t _
+            split at h
+            · rename_i w hw
+              split at h
+              · injection h with h; injection h with h1 h2; subst h1; subst h2
+                rw [hw]; rfl
+              · cases h
+            · cases h
+
+/-- non-vacuity: `CAA 0 issue "ca.example"`'s value is packed (the value field is the rest of the rdata) -/
+example : (schemaOf "CAA").bind (fun sch => encRec "CAA" sch (some [[]]) [.n 0, .b [105], .b [99, 97]] none)
+    = some [0, 1, 105, 99, 97] := by decide
 
 /-- non-vacuity: `MX 10 mail.example.`, `TXT "a\200" ""`, `DS 1 8 2 <32 octets>` are well-formed for text -/
 example : WfText "MX" {} {} [.n 10, .nm [[109, 97, 105, 108], [101, 120], []]] none := by
@@ -227,5 +292,28 @@ example : WfText "TXT" { txtUtf8 := true } {} [] (some (.bl [[0x61, 0xC2, 0xA0],
 example : WfText "TXT" {} {} [] (some (.bl [[97, 200], []])) := by
   refine ⟨_, rfl, trivial, ⟨by simp, ?_⟩, by decide, rfl⟩
   intro s hs; simp at hs; rcases hs with rfl | rfl <;> refine ⟨by decide, by decide⟩
+
+/-- `AMTRELAY 10 0 0 .` and `IPSECKEY 10 0 0 .` (no gateway, algorithm 0 ⇒ no key: the case repaired by a158101) -/
+example : WfText "AMTRELAY" {} {} [.n 10, .n 0, .n 0] (some (.gw 0 [] [] [])) := by
+  refine ⟨_, rfl, ⟨by simp [FieldOk, u8], ⟨by simp [FieldOk], ⟨by simp [FieldOk], trivial⟩⟩⟩, ⟨rfl, Or.inl ⟨rfl, rfl, rfl⟩, rfl⟩, by decide, rfl⟩
+
+example : WfText "IPSECKEY" {} {} [.n 10, .n 0, .n 0] (some (.gw 0 [] [] [])) := by
+  refine ⟨_, rfl, ⟨by simp [FieldOk, u8], ⟨by simp [FieldOk, u8], ⟨by simp [FieldOk, u8], trivial⟩⟩⟩,
+    ⟨rfl, Or.inl ⟨rfl, rfl, rfl⟩, 0, rfl, fun _ => rfl, by simp, Or.inr ⟨blanks_space, by decide⟩⟩, by decide, rfl⟩
+
+/-- `APL !1:192.168.0.0/16 2:2001:db8::/32` -/
+example : WfText "APL" {} {} [] (some (.apl [(1, true, [192, 168, 0, 0], 16),
+    (2, false, [0x20, 1, 0x0d, 0xb8, 0, 0, 0, 0, 0, 0, 0, 0, 0, 0, 0, 0], 32)])) := by
+  refine ⟨_, rfl, trivial, ?_, by decide, rfl⟩
+  intro it hit
+  simp at hit
+  rcases hit with rfl | rfl
+  · exact Or.inl ⟨rfl, ⟨192, 168, 0, 0, rfl, by decide, by decide, by decide, by decide⟩, by decide⟩
+  · exact Or.inr ⟨rfl, rfl, by decide, by decide⟩
+
+/-- `WKS 10.0.0.1 6 25` (SMTP over TCP) -/
+example : WfText "WKS" {} {} [] (some (.wks [10, 0, 0, 1] 6 [0, 0, 0, 0x40])) := by
+  refine ⟨_, rfl, trivial, ⟨⟨10, 0, 0, 1, rfl, by decide, by decide, by decide, by decide⟩, by decide, by decide, by decide, by decide⟩,
+    by decide, rfl⟩
 
 end C05
